@@ -57,7 +57,8 @@ func (d *Document) PrintDescription(description Description, indent []byte, dept
 		}
 
 		switch content[i] {
-		case runes.LINETERMINATOR:
+		case runes.LINETERMINATOR, runes.CARRIAGERETURN:
+			// a lone carriage return ends a line too (the common indent above is computed that way)
 			skipWhitespace = true
 			skippedBytes = 0
 		default:
